@@ -1308,6 +1308,7 @@ Section Main.
       match y with
       | VNone => v_nillable var = true /\ v_default var = DNone      (* <f xsi:nil="true"/> *)
                  /\ (forall k, v_types var = [TClass k] -> cls_nillable u k = false)
+                 /\ v_tokens_factory var = None
       | _ => match v_tokens_factory var with
              | Some tf => fits_tokens var tf y = true
              | None => fits_item (fits n) var y = true
@@ -1411,7 +1412,7 @@ Section Main.
       - (* tokens *)
         destruct x as [| |tp l| | | |] eqn:Ex; try (cbn in Hf; discriminate Hf).
         destruct l as [|y l'].
-        + apply eqb_bool in Hf. split; [constructor|]. split; [intros _; cbn; lia|]. split; [intros pv E; cbn in E; discriminate E|].
+        + apply andb_true_iff in Hf as [Hf _]. apply eqb_bool in Hf. split; [constructor|]. split; [intros _; cbn; lia|]. split; [intros pv E; cbn in E; discriminate E|].
           intros _. apply (factory_default_call tf); assumption.
         + assert (Hy : match y with VList _ _ => False | _ => True end).
           { unfold Fits.fits_tokens in Hf. apply andb_true_iff in Hf as [_ Hf]. cbn [forallb] in Hf.
@@ -1426,7 +1427,7 @@ Section Main.
           * assert (Hncl : forall k, v_types var = [TClass k] -> cls_nillable u k = false).
             { intros k Hk. rewrite Hdn in Hf. unfold vtype in Hf. rewrite Hk in Hf. cbn [andb] in Hf.
               apply negb_true_iff in Hf. exact Hf. }
-            split; [constructor; [split; [exact Enl|split; [exact Hdn|exact Hncl]]|constructor]|]. split; [intros _; cbn; lia|].
+            split; [constructor; [split; [exact Enl|split; [exact Hdn|split; [exact Hncl|exact Etf]]]|constructor]|]. split; [intros _; cbn; lia|].
             split; [intros pv E; cbn in E; inversion E; reflexivity|discriminate].
           * split; [constructor|]. split; [intros _; cbn; lia|]. split; [intros pv E; cbn in E; discriminate E|].
             intros _. rewrite Hdn. reflexivity.
@@ -1810,15 +1811,14 @@ Section Main.
     Lemma nil_item_run var a asg wr wo Q objs W rest :
       is_elem_var var -> v_nillable var = true -> v_default var = DNone ->
       (forall k, v_types var = [TClass k] -> cls_nillable u k = false) ->
+      v_tokens_factory var = None ->
       (v_factory var = None -> ~ In (v_index var) asg) -> wrap_agrees var wo ->
       reads (ienode var VNone) a ->
       prun (mk_pstate (ctx wo ++ NElement (enW asg wr) :: Q) objs W) (a ++ rest)
       = prun (mk_pstate (ctx wo ++ NElement (enW (asg_after var asg) (wr_after var wo wr)) :: Q)
                         (objs ++ [(Some (v_qname var), VNone)]) W) rest.
     Proof.
-      intros Hv Hnl Hdn Hncl Hasg Hag Hr. pose proof Hv as [Hw _].
-      assert (Htf : v_tokens_factory var = None)
-        by (destruct (wf_elem_nil var Hw Hnl) as [[t [_ [_ [_ H]]]]|[k [_ [_ H]]]]; exact H).
+      intros Hv Hnl Hdn Hncl Htf Hasg Hag Hr. pose proof Hv as [Hw _].
       assert (He : ienode var VNone = EElem (Bind.split_qname (v_qname var)) [(Bind.split_qname XSI_NIL, [AText EventGen.TRUE_STR])] []).
       { unfold ienode. rewrite Htf. cbn [RoundtripGen.e_item]. unfold RoundtripGen.e_prim, nil_attr_e. rewrite Hnl. reflexivity. }
       rewrite He in Hr. cbn [reads_o] in Hr.
@@ -1828,7 +1828,7 @@ Section Main.
       rewrite clark_split in Hv2. inversion Hv1; subst v.
       destruct attrs as [|a0 [|? ?]]; try discriminate Hlen. destruct Hv2 as [->|[]].
       rewrite clark_split in Ha. subst a. cbn [app].
-      destruct (wf_elem_nil var Hw Hnl) as [[t [Ht [Hst [Hcl _]]]]|[k [Ht [Hcl _]]]].
+      destruct (wf_elem_nil var Hw Hnl) as [[t [Ht [Hst Hcl]]]|[k [Ht [Hcl _]]]].
       2:{ (* a class-typed field: the element node answers None (the class is not nillable) *)
           pose proof (Hncl k Ht) as Hnk.
           pose proof Hv as [_ Hin0]. assert (Hwk : wfr k) by (apply (Hnest _ var k Hin0 (or_introl eq_refl) Hcl)).
@@ -1851,7 +1851,7 @@ Section Main.
       rewrite (run_step cfg c u replay root _ _ _ _
                  (start_child var _ ns asg wr wo Q objs W _ Hv Hasg Hag
                     (build_node_prim_attrs var [(XSI_NIL, EventGen.TRUE_STR)] ns (length objs) asg wr Hv Hcl
-                       ltac:(unfold is_object; rewrite Ht; destruct t; try reflexivity; discriminate Hst)
+                       ltac:(unfold is_object; rewrite Ht; destruct Hst as [Hst| ->]; [destruct t; try reflexivity; discriminate Hst|reflexivity])
                        ltac:(cbn [assoc]; rewrite xsi_type_not_nil; reflexivity)))).
       destruct (wf_class_inv m Hwc) as [F1 F2 F3 F4 F5 F6 F7 F8 F9 F10 F11 F12 F13].
       apply run_step. cbn [Parser.step pend st_queue st_objects st_warn].
@@ -1869,7 +1869,7 @@ Section Main.
       intros Hv Hok Hasg Hag Hr. pose proof Hv as [Hw Hin].
       assert (Hcase : y = VNone \/ y <> VNone) by (destruct y; [left; reflexivity|right; discriminate..]).
       destruct Hcase as [->|Hyn].
-      { destruct Hok as [Hnl [Hdn Hncl]]. apply (nil_item_run var a asg wr wo Q objs W rest Hv Hnl Hdn Hncl Hasg Hag Hr). }
+      { destruct Hok as [Hnl [Hdn [Hncl Htf0]]]. apply (nil_item_run var a asg wr wo Q objs W rest Hv Hnl Hdn Hncl Htf0 Hasg Hag Hr). }
       apply (item_ok_inv var y Hyn) in Hok. unfold ienode in Hr.
       destruct (wf_elem_inv var Hw) as [_ [_ [[k [Hty [Hcl Htf]]]|[[t [Hty [Hst Hcl]]]|[[Hty [Hcl Htf]]|Hae]]]]].
       4:{ pose proof Hae as [Hty [_ [Htf _]]]. rewrite Htf in *.
